@@ -14,7 +14,7 @@ _ABSENT = r"(8589934592|8589934602|12884901887|2147483648\d|2147483649\d|2576980
 
 CFG = {
     "gen_profiles": ["C12"],
-    "cases": {"quick": 500, "thorough": 5000},
+    "cases": {"quick": 1000, "thorough": 10000},
     "compare": "set",
     "nontrivial": _nontrivial,
     "rule": ("cases = corpus (the five D5 shapes) + seeded treemaps with 2-4 partitions and scripts of 10-40 iterator calls "
@@ -38,7 +38,8 @@ CFG = {
         "three or more partitions": r"parts=\[[^\],]*,[^\],]*,",
     },
     "gaps": [
-        "the inner 32-bit iterators are abstract: C12 theorems hold for every inner cursor that satisfies the C03 cursor laws (TIter.Inner.Laws); instantiation with the mirrored bitmap::Iter model (family iter32, C03 theorems) happens at merge — until then the executable model runs the C03 specification (list cursor) as the inner iterator",
+        "the inner 32-bit iterators are abstract: every C12_*_partial theorem holds for every inner cursor K with an `InnerSpec K` (= the C03 cursor laws: rem/Inv, next = pop front, next_back = pop back, advance_to n = filter (n <= .), advance_back_to n = filter (. <= n), exact size_hint, cached len); the instantiation with the mirrored bitmap::Iter model and the C03 theorems (family iter32) happens at merge - until then the executable model runs the C03 specification (list cursor, InnerSpec.list) as the inner iterator",
+        "size_hint exactness is stated under 'remaining count <= usize::MAX' (saturating_add / the IntoIter `< usize::MAX` test)",
     ],
     "assumptions": [
         "treemap iterator correspondence bounds: 2-4 partitions from keys {0,1,3,4,u32::MAX}, <= ~12000 elements, scripts of 10-40 calls",
